@@ -171,22 +171,30 @@ def run_case(case):
         c2, e2 = outcome(lambda: build(case["c2"]))
         if c1 is None or c2 is None:
             return {"id": case["id"], "ev": []}
-        r, exc = outcome(lambda: c1.merge(c2))
-
         def proj(c):
             return {"inv": [str(v) for v in c.inputvars], "outv": [str(v) for v in c.outputvars], "a": alts_rows(c.a), "g": alts_rows(c.g)}
 
-        p1, p2 = proj(c1), proj(c2)
-        ev = {"op": "cmerge", "c1": p1, "c2": p2, "res": {"inv": [], "outv": [], "a": [], "g": []}, "exc": exc, "names": [],
-              "hints": {"wa": NONE, "wg": NONE, "a": {"res": [], "pairs": {}}, "g": {"res": [], "pairs": {}}}}
-        if r is not None:
-            pr = proj(r)
-            ev["res"] = pr
-            names = names_of(p1["a"], p1["g"], p2["a"], p2["g"], pr["a"], pr["g"])
-            ev["names"] = names
-            ev["hints"] = {"wa": refute_merge(p1["a"], p2["a"], pr["a"], names) or NONE, "wg": refute_merge(p1["g"], p2["g"], pr["g"], names) or NONE,
-                           "a": side_hints(p1["a"], p2["a"], pr["a"], names), "g": side_hints(p1["g"], p2["g"], pr["g"], names)}
+        def merge_event(x, y):
+            r, exc = outcome(lambda: x.merge(y))
+            p1, p2 = proj(x), proj(y)
+            ev = {"op": "cmerge", "c1": p1, "c2": p2, "res": {"inv": [], "outv": [], "a": [], "g": []}, "exc": exc, "names": [],
+                  "hints": {"wa": NONE, "wg": NONE, "a": {"res": [], "pairs": {}}, "g": {"res": [], "pairs": {}}}}
+            if r is not None:
+                pr = proj(r)
+                ev["res"] = pr
+                names = names_of(p1["a"], p1["g"], p2["a"], p2["g"], pr["a"], pr["g"])
+                ev["names"] = names
+                ev["hints"] = {"wa": refute_merge(p1["a"], p2["a"], pr["a"], names) or NONE, "wg": refute_merge(p1["g"], p2["g"], pr["g"], names) or NONE,
+                               "a": side_hints(p1["a"], p2["a"], pr["a"], names), "g": side_hints(p1["g"], p2["g"], pr["g"], names)}
+            return ev, r
+
+        ev, r = merge_event(c1, c2)
         evs.append(ev)
+        if r is not None and "c3" in case:
+            # a history: the result of a merge (possibly with no alternative left) is merged again
+            c3, e3 = outcome(lambda: build(case["c3"]))
+            if c3 is not None:
+                evs.append(merge_event(r, c3)[0] if case.get("flip") else merge_event(c3, r)[0])
     for e in evs:
         e["groups"] = ["compound"]
     return {"id": case["id"], "ev": evs}
@@ -235,6 +243,12 @@ def gen_cases(tier):
                 return {"inv": inv, "outv": outv, "a": alternatives(rng, inv, rng.randint(1, 3), "disjoint"),
                         "g": [box_alt(rng, outv + inv, rng.randint(-5, 0), rng.randint(1, 6)) for _ in range(rng.randint(1, 2))]}
             c["c1"], c["c2"] = spec(), spec()
+            if (i // 6) % 3 != 1:
+                # a history of two merges; in half of them the first merge leaves no alternative at all on one side
+                c["c3"], c["flip"] = spec(), rng.random() < 0.5
+                if rng.random() < 0.6:
+                    side, v = rng.choice([("g", outv[0]), ("a", inv[0])])
+                    c["c2"][side] = [[(co, cst + 30 * co[v]) if set(co) == {v} else (co, cst) for co, cst in alt] for alt in c["c2"][side]]
         out.append(c)
     return out
 
